@@ -303,7 +303,7 @@ Qed.
 Lemma main_opened c s o s1 ev cl p d :
   main_handler c s o = Some (s1, ev, cl) -> In (UOpened p d) ev -> accepted_in (ps s p) d.
 Proof.
-  destruct o as [q|q|q|q|q|q|q b|q b|q a|q|q|q|q|q g|q|q|q|q|q g|q|q m|q m|q m|q m]; cbn [main_handler]; intros M HIn.
+  destruct o as [q|q|q|q|q|q|q b|q b|q a|q|q|q|q|q g|q older|q|q|q|q g|q|q m|q m|q m|q m]; cbn [main_handler]; intros M HIn.
   - destruct (conn s q); [inversion M; subst; destruct HIn|].
     exfalso. eapply quiet_no_opened; [|exact HIn]. rewrite <- M. apply quiet_on_established.
   - destruct (conn s q); [|inversion M; subst; destruct HIn].
@@ -426,7 +426,7 @@ Definition open_by_user : list op :=
   [Established 0; CmdOpen 0; SubIn 0; HsIn 0 true; SubOut 0; HsIn 0 true; HsOut 0 true].
 Definition w_slow_close : list op :=
   open_by_user ++ [Gate 0; CmdClose 0; SubIn 0; HsIn 0 true; Validate 0 true; HsIn 0 true; SubOut 0;
-                   HsOut 0 true; Release 0].
+                   HsOut 0 true; Release 0 false].
 Definition w_failed_sid : list op :=
   [Established 0; SubIn 0; HsIn 0 true; Validate 0 true; OpenFail 0; CmdOpen 0].
 
